@@ -80,13 +80,19 @@ BATTERY_FAR = (9999, 12, 31)        # added for every fourth process (a conversi
 
 
 # ------------------------------------------------------------------ watchdog
-CPU_LIMIT = 20                      # CPU seconds for one call of the code under test (a conversion takes ~1 ms)
+CPU_LIMIT = 10                      # CPU seconds for one call of the code under test (a conversion takes ~1 ms)
 WALL_LIMITS = (240, 1200)           # wall seconds; a wall time-out is tried once more before it counts
 CHILD_CPU = 150                     # hard CPU limit of one history process (for loops no signal handler can leave)
+HANG_BUDGET = 3                     # after that many calls without a result a process runs no further jobs
+_HANGS = 0
 
 
 class Hang(BaseException):
     """raised by the watchdog timers inside the call they interrupt"""
+
+
+class Exhausted(BaseException):
+    """this process has spent its budget of calls that never return: nothing more is evaluated in it"""
 
 
 def _on_timer(signum, frame):
@@ -109,6 +115,9 @@ def guarded(fn):
     """fn() under the watchdog -> ("done", result) | ("hang", text).  The CPU timer (user time of
     this process: independent of the load of the machine) decides at once; the wall timer is only
     for calls that wait instead of computing and is tried a second time with a longer limit."""
+    global _HANGS
+    if _HANGS >= HANG_BUDGET:
+        raise Exhausted()
     if not _arm():
         return ("done", fn())
     for wall in WALL_LIMITS:
@@ -122,7 +131,9 @@ def guarded(fn):
                 signal.setitimer(signal.ITIMER_REAL, 0)
         except Hang as h:
             if str(h) == "cpu":
+                _HANGS += 1
                 return ("hang", "no result within %d CPU-seconds" % CPU_LIMIT)
+    _HANGS += 1
     return ("hang", "no result within %d s (tried twice)" % WALL_LIMITS[-1])
 
 
@@ -159,11 +170,12 @@ def where():
 
 
 def tlc(*a, **kw):
-    """run_tlc, once more when the JVM was killed or timed out (not on a spec error)"""
+    """run_tlc, once more when the JVM was killed, timed out or threw (seen once with six JVMs side by side on
+    the loaded machine; not on a spec error)"""
     try:
         return run_tlc(*a, **kw)
     except MachineryError as e:
-        if "tlc exit" not in str(e):
+        if "tlc exit" not in str(e) and "unexpected exception" not in str(e):
             raise
         return run_tlc(*a, **kw)
 
@@ -380,8 +392,11 @@ def check_day(it, y, m, d, n, s, offs, mode="full", order=None):
         rnd = random.Random(order)
         rnd.shuffle(steps)
         rnd.shuffle(parts)
-    for step in steps:
-        step()
+    try:
+        for step in steps:
+            step()
+    except Exhausted:
+        pass                            # what was observed so far is reported; the caller runs no further job
     return out, cnt
 
 
@@ -408,9 +423,12 @@ def check_parts(it, parts):
         obs = [("val", v) for v in o[1][1]]
     else:
         obs = []
-        for p_ in parts:
-            progress(p_[0])
-            obs.append(interp(it, p_[0]))
+        try:
+            for p_ in parts:
+                progress(p_[0])
+                obs.append(interp(it, p_[0]))
+        except Exhausted:
+            pass                        # the parts not evaluated are not judged (zip below stops at obs)
     for (src, cmp, want), ob in zip(parts, obs):
         case = {"kind": "expr", "src": src, "cmp": cmp, "want": want, "tz": _ENV["tz"], "pre": _ENV.get("pre")}
         if ob[0] == "hang":
@@ -442,6 +460,28 @@ _IT = None
 _TAB = None          # the TLC month table, inherited by the forked pool workers
 
 
+def module_state():
+    """plain values at module level of ckl.date (tables, constants, caches), for a drift-only diagnostic:
+    nothing here is relied upon, any failure gives an empty answer"""
+    try:
+        out = {}
+        for name, v in list(vars(ckldate).items()):
+            if not name.startswith("__") and isinstance(v, (list, dict, set, tuple, int, float, str, bool)):
+                out[name] = repr(v)[:120]
+        return out
+    except Exception:  # noqa: BLE001
+        return {}
+
+
+def state_drift(before, drift):
+    after = module_state()
+    for name in sorted(set(before) | set(after)):
+        if before.get(name) != after.get(name):
+            drift.append(("module-level-value-of-ckl.date-changed", "%s: %s -> %s" % (
+                name, before.get(name), after.get(name))))
+    return after
+
+
 def _worker(arg):
     """One chunk of jobs -> (chunk index, violations, evaluations, drift, cpu seconds by job kind)."""
     global _IT
@@ -452,14 +492,22 @@ def _worker(arg):
     drift = []
     cnt = 0
     cpu = {}
+    state = module_state()
     for job in chunk:
+        if _HANGS >= HANG_BUDGET:
+            # calls that never return cost CPU_LIMIT each: what was seen is reported, the rest is not run
+            drift.append(("job-not-run-after-repeated-no-result", None))
+            continue
         t0 = time.process_time()
         kind = job[0] if isinstance(job[0], str) else job[-1]
         try:
             cnt += _run_job(job, out, drift)
         except Hang as h:               # a timer that fired between two guarded calls: nothing was running
             drift.append(("watchdog-outside-call", str(h)))
+        except Exhausted:
+            drift.append(("job-not-run-after-repeated-no-result", None))
         cpu[kind] = cpu.get(kind, 0.0) + time.process_time() - t0
+    state_drift(state, drift)
     return idx, out, cnt, drift, cpu
 
 
@@ -470,11 +518,11 @@ def _run_job(job, out, drift):
     _ENV["pre"] = None
     if nseed:
         # a date function outside the conversions runs first: it must not matter
-        src = noise_program(random.Random(nseed), _TAB)
-        _ENV["pre"] = src
-        o = interp(_IT, src)
-        if o[0] in ("host", "hang"):
-            drift.append(("bystander-" + o[0], "%s -> %r" % (src, o[1:])))
+        _ENV["pre"] = noise_program(random.Random(nseed), _TAB)
+        for src in _ENV["pre"]:
+            o = interp(_IT, src)
+            if o[0] in ("host", "hang"):
+                drift.append(("bystander-" + o[0], "%s -> %r" % (src, o[1:])))
     if job[0] == "month":
         # every day of one month, direct conversions only, seeded times of day
         _tag, y, m, n0, ln, seed = job[:6]
@@ -541,6 +589,8 @@ def report(run, results):
             run.violation(key, what, case)
         for kind, sample in drift:
             run.drift(kind, sample)
+            if kind == "job-not-run-after-repeated-no-result":
+                run.cov["jobs_not_run"] = run.cov.get("jobs_not_run", 0) + 1
     run.cov["impl_cpu_seconds_by_job_kind"] = {k: round(v, 1) for k, v in sorted(cpu.items())}
     return total
 
@@ -562,7 +612,8 @@ INPUTS = {"start": ("k", "a"), "tz": ("k",), "new": ("y", "m", "d", "s"), "add":
           "api_num": ("y", "m", "d", "s"), "minus": ("y", "m", "d", "s"), "cmp": ("y", "m", "d", "s", "a"),
           "parse": ("k", "a", "t"), "valid": ("k",), "fmt": ("a",), "part": ("a",), "err": ("a",), "free": ("a",)}
 CONSTRUCTORS = ("new", "date_int", "date_dec", "parse")
-PARSE_FMT = {1: "'yyyyMMdd'", 2: "'yyyyMMddHHmmss'", 3: "['yyyyMM', 'yyyyMMddHHmmss']", 4: "'ddMMyyyyHHmmss'"}
+PARSE_FMT = {1: "'yyyyMMdd'", 2: "'yyyyMMddHHmmss'", 3: "['yyyyMM', 'yyyyMMddHHmmss']", 4: "'ddMMyyyyHHmmss'",
+             5: "'HHmmss'"}          # 5: a time only; the date is then 1970-01-01 (k = 19700101)
 FMT_SRC = {1: "require Date; Date->format_date(cur, fmt = 'yyyyMMddHHmmss')", 2: "require Date; Date->format_date(cur)",
            3: "require Date; Date->iso_datetime(cur)", 4: "require Date; Date->iso_date(cur)"}
 PART_SRC = {1: "date_year", 2: "date_month", 3: "date_day", 4: "date_hour", 5: "date_minute", 6: "date_second"}
@@ -598,6 +649,8 @@ def source(e):
             text = "%04d%02d%02d" % (y, m, d)
         elif e["a"] == 4:
             text = "%02d%02d%04d%02d%02d%02d" % ((d, m, y) + hms(e["t"]))
+        elif e["a"] == 5:
+            text = "%02d%02d%02d" % hms(e["t"])
         else:
             text = "%04d%02d%02d%02d%02d%02d" % ((y, m, d) + hms(e["t"]))
         return "require Date; def cur = Date->parse_date('%s', fmt = %s)" % (text, PARSE_FMT[e["a"]])
@@ -746,7 +799,8 @@ def noise_event(rng, tab, cur=None):
     op = rng.choice(ops)
     if op == "parse":
         y, m, d = noise_day(rng, tab)
-        return event(op, k=y * 10000 + m * 100 + d, a=rng.randint(1, 4), t=rng.randrange(86400))
+        a = rng.randint(1, 5)
+        return event(op, k=(19700101 if a == 5 else y * 10000 + m * 100 + d), a=a, t=rng.randrange(86400))
     if op == "valid":
         y, m, d = noise_day(rng, tab)
         if rng.random() < 0.4:
@@ -770,25 +824,22 @@ def noise_event(rng, tab, cur=None):
 
 
 def noise_program(rng, tab):
-    """program text of one or two bystander calls for a binding-A job (its results are not judged there;
+    """program texts of one or two bystander calls for a binding-A job (their results are not judged there;
     the same calls are judged by Date_Trace in the recorded walks)"""
     y, m, d = noise_day(rng, tab)
     s = rng.randrange(86400)
     srcs = ["def cur = " + lit((y, m, d), s)]
     for _ in range(rng.randint(1, 2)):
         e = noise_event(rng, tab, (tab.num(y, m, d), s))
-        if e["op"] == "err":
-            continue                    # a failing call ends the program: kept for the walks and histories
         srcs.append(source(e))
         if e["op"] == "parse":
             break                       # cur may be NULL now
-    return "; ".join(srcs)
+    return srcs
 
 
 # ------------------------------------------------------------------ binding B: one process
-def record_walk(rng, tab, it, zone):
-    """One recorded walk in this (new) process -> (events, meta); meta[i] = [source text, note]"""
-    events, meta = [], []
+def record_walk(rng, tab, it, zone, events, meta):
+    """One recorded walk in this (new) process, appended to events and meta; meta[i] = [source text, note]"""
 
     def ev(e):
         src = source(e)
@@ -823,7 +874,7 @@ def record_walk(rng, tab, it, zone):
     else:
         e = ev(event("new", y=y, m=m, d=d, s=s))
     if not e["ok"]:
-        return events, meta
+        return
     for _step in range(rng.randint(5, 12)):
         op = rng.choice(["add", "sub", "add", "sub", "int", "dec", "date_int", "date_dec",
                          "roundtrip", "roundtrip_int", "diff", "minus", "back",
@@ -875,12 +926,10 @@ def record_walk(rng, tab, it, zone):
             break                       # the model and `cur` may differ now: next trace
         if not e["ok"] and e["op"] == "parse":
             break
-    return events, meta
 
 
-def run_history(it, zone, ops):
-    """One history exported by DateProc in this (new) process -> (events, meta)"""
-    events, meta = [], []
+def run_history(it, zone, ops, events, meta):
+    """One history exported by DateProc in this (new) process, appended to events and meta"""
     for e0 in [event("start", k=zone, a=1)] + list(ops):
         e = event(e0["op"], **{f: e0[f] for f in INPUTS.get(e0["op"], ())})
         src = source(e)
@@ -889,7 +938,6 @@ def run_history(it, zone, ops):
         meta.append([src, note_of(e, o)])
         if not e["ok"] and e["op"] in CONSTRUCTORS + ("add", "sub"):
             break                       # cur is not what the next operation expects
-    return events, meta
 
 
 def battery_jobs(tab):
@@ -908,10 +956,16 @@ def run_task(task, it, tab, battery):
     zone = task["zone"]
     set_zone(zone)                      # a zygote is started with this TZ already; replay in another process sets it
     t0 = time.process_time()
-    if task["kind"] == "walk":
-        events, meta = record_walk(random.Random(task["seed"]), tab, it, zone)
-    else:
-        events, meta = run_history(it, zone, task["ops"])
+    events, meta, drift = [], [], []
+    state = module_state()
+    try:
+        if task["kind"] == "walk":
+            record_walk(random.Random(task["seed"]), tab, it, zone, events, meta)
+        else:
+            run_history(it, zone, task["ops"], events, meta)
+    except Exhausted:
+        pass
+    state_drift(state, drift)
     label = "process[%s]" % "; ".join(m[0] for m in meta)
     rnd = random.Random(task["id"] * 7919 + 13)
     days = [b for b in battery if tuple(b[:3]) != BATTERY_FAR or task["id"] % 4 == 0]
@@ -921,13 +975,15 @@ def run_task(task, it, tab, battery):
     _ENV["pre"] = None
     t1 = time.process_time()
     for (y, m, d, n, s, offs, mode) in days:
+        if _HANGS >= HANG_BUDGET:
+            break
         o, c = check_day(it, y, m, d, n, s, [(k, tuple(t)) for k, t in offs], mode, order=rnd.randrange(2 ** 30))
         cnt += c
         for key, what, _case in o:
             viol.append([label + " then " + key, what + " - after that history in a new process",
                          {"kind": "proc", "task": task}])
     return {"id": task["id"], "events": events, "meta": meta, "viol": viol, "cnt": cnt,
-            "cpu": [t1 - t0, time.process_time() - t1]}
+            "cpu": [t1 - t0, time.process_time() - t1], "hangs": _HANGS, "drift": drift}
 
 
 def fork_retry():
@@ -952,12 +1008,16 @@ def zygote_main(jobfile, outfile):
     battery = job["battery"]
     it = Interpreter(True, False)
     with open(outfile, "w") as outf:
+        hangs = 0
         for task in job["tasks"]:
             res = None
-            for _attempt in range(2):
+            if hangs >= HANG_BUDGET:
+                res = {"id": task["id"], "skipped": True}
+            for _attempt in range(0 if res else 2):
                 res = one_child(task, it, tab, battery)
                 if "died" not in res or res["died"] == "SIGXCPU":
                     break
+            hangs += res.get("hangs", 0) + (1 if res.get("died") == "SIGXCPU" else 0)
             outf.write(json.dumps(res) + "\n")
             outf.flush()
 
@@ -1089,6 +1149,10 @@ def run_processes(run, procs, limit):
         r = results.get(tid)
         if r is None:
             continue
+        if r.get("skipped"):
+            run.drift("job-not-run-after-repeated-no-result", None)
+            run.cov["jobs_not_run"] = run.cov.get("jobs_not_run", 0) + 1
+            continue
         if "died" in r:
             label = "process[%s]" % "; ".join(r.get("done", []))
             if r["died"] == "SIGXCPU":
@@ -1104,6 +1168,8 @@ def run_processes(run, procs, limit):
         meta += r["meta"]
         evals += r["cnt"]
         cpu = [cpu[0] + r["cpu"][0], cpu[1] + r["cpu"][1]]
+        for kind, sample in r.get("drift", []):
+            run.drift(kind, sample)
         for key, what, case in r["viol"]:
             run.violation(key, what, case)
     run.cov["impl_cpu_seconds_in_new_processes"] = {"histories_and_walks": round(cpu[0], 1), "battery": round(cpu[1], 1)}
@@ -1159,8 +1225,8 @@ def validate_traces(run, events, meta, owners=()):
             j -= 1
         if b["why"].startswith("noise-"):
             # what a bystander itself returned: not what the property speaks about
-            run.drift("bystander-result-" + b["why"][6:], "%s -> %s %s" % (
-                meta[k][0], json.dumps(events[k], sort_keys=True), meta[k][1]))
+            run.drift("bystander-result-" + b["why"][6:], "%s ... %s -> %s %s" % (
+                meta[j][0], meta[k][0], json.dumps(events[k], sort_keys=True), meta[k][1]))
             continue
         nbad += 1
         if owners:
@@ -1187,15 +1253,15 @@ def tlc_tables(run, quick):
          "Date year walk 1900..9999 (year-length sum of to_oa_date)"),
         ("arith", ("DateArith", "DateArith_quick" if quick else "DateArith_thorough"), dict(coverage=True, timeout=3000),
          "DateArith calendar-stepping machine (d + k is k NextDay steps away)"),
-        ("first", ("DateProc", "DateProc_first"), dict(coverage=True, timeout=1200, workers=4),
+        ("first", ("DateProc", "DateProc_first"), dict(coverage=True, timeout=1200, workers=1),
          "DateProc: every operation of the date vocabulary as the first one of a process (wide parameters)"),
-        ("pairs", ("DateProc", "DateProc_pairs"), dict(coverage=True, timeout=1200, workers=4),
+        ("pairs", ("DateProc", "DateProc_pairs"), dict(coverage=True, timeout=1200, workers=1),
          "DateProc: every ordered pair of operations in a new process (narrow parameters)"),
     ]
     if not quick:
         specs.append(("thorough", ("Date", "Date_thorough"), dict(coverage=False, timeout=7200),
                       "Date day walk over every day 1900-01-01..9999-12-31 (810 decade walks)"))
-        specs.append(("triples", ("DateProc", "DateProc_triples"), dict(coverage=False, timeout=3600),
+        specs.append(("triples", ("DateProc", "DateProc_triples"), dict(coverage=False, timeout=3600, workers=1),
                       "DateProc: every ordered triple of operations in a new process (narrow parameters)"))
     with ThreadPoolExecutor(max_workers=len(specs)) as ex:
         futs = {name: ex.submit(tlc, *a, **kw) for name, a, kw, _label in specs}
@@ -1376,6 +1442,9 @@ def run_main(run, rng, quick, tab, walked, arith, hazards, procs, nhist, nt):
     run.cov["phase_seconds"]["trace_validation"] = round(time.time() - t0, 1)
     run.sample({"HISTORY": {"zone": _ZONES[procs.tasks[0]["zone"] - 1], "ops": procs.tasks[0]["ops"]}})
     run.sample({"TRACE": events[owners[nhist][0]:owners[nhist][0] + 6] if len(owners) > nhist else events[:6]})
+    if run.cov.get("jobs_not_run") and not run.violations:
+        raise MachineryError("%d jobs were not run after calls of bystanders that never returned"
+                             % run.cov["jobs_not_run"])
     ntr = len(owners)
     ops_seen = {}
     for e in events:
@@ -1435,8 +1504,8 @@ def replay(run, case):
         elif kind == "expr":
             set_tz(case.get("tz"))
             it = Interpreter(True, False)
-            if case.get("pre"):
-                interp(it, case["pre"])
+            for src in case.get("pre") or []:
+                interp(it, src)
             out, _ = check_parts(it, [(case["src"], case["cmp"], case["want"])])
             for key, what, c in out:
                 run.violation(key, what, c)
@@ -1455,7 +1524,7 @@ def replay(run, case):
         global _ZONES
         resm = tlc("Date", "Date_months", coverage=False, timeout=1800)
         tab = Table(resm.records("MONTH"))
-        env = tlc("DateProc", "DateProc_pairs", coverage=False, timeout=1200, workers=4).records("ENV")
+        env = tlc("DateProc", "DateProc_pairs", coverage=False, timeout=1200, workers=1).records("ENV")
         _ZONES = list(env[0]["zones"])
         task = dict(case["task"], id=case["task"]["id"])
         workdir = tempfile.mkdtemp(prefix="c17-proc-")
